@@ -556,6 +556,13 @@ func c02Chunked(t *rapid.T) {
 
 func TestC02Chunked(t *testing.T) { rapid.Check(t, c02Chunked) }
 
+// TestC02ChunkedThree: the same with hashes of three chunks only.
+func TestC02ChunkedThree(t *testing.T) {
+	forcedBigMode = "three"
+	defer func() { forcedBigMode = "" }()
+	rapid.Check(t, c02Chunked)
+}
+
 // hand-built regression inputs of the fixed findings (no generator involved in the choice of case)
 func TestC02Regress(t *testing.T) {
 	str := func(s string) *gen.Value { return &gen.Value{Kind: "string", Str: []byte(s)} }
